@@ -13,8 +13,11 @@ Proof. intros pf x a b cf H. apply lift_safe. exact H. Qed.
 Lemma bq_all_pairs_safe : all_pairs_safe = true.
 Proof. vm_compute. reflexivity. Qed.
 
-Lemma bq_param_orders_used : wait_load_uses_param_order = true /\ set_version_uses_param_order = true.
-Proof. split; reflexivity. Qed.
+(* every access of the wait / publish helpers uses the order its caller hands down *)
+Lemma bq_param_orders_used :
+  fast_load_order = 100%Z /\ spin_load_order = 100%Z /\ block_reload_order = 100%Z /\ block_cas_order = 100%Z /\
+  set_version_order = 100%Z /\ version_getter_order = 100%Z.
+Proof. repeat split; reflexivity. Qed.
 
 (* weakened variants: the executions exist *)
 Lemma bq_single_relaxed_store_refuted : mp_general_safe None false Relaxed Acquire None = false.
